@@ -42,7 +42,7 @@ Definition grow (f : bfile) (e : N) : bfile :=
 
 (* hash(name): FNV-1a folded to numHash buckets *)
 Definition fnv (name : list N) : N :=
-  let h := fold_left (fun h c => (N.lxor h c * c_fnv_prime32) mod R32) name c_fnv_offset32 in
+  let h := fold_left (fun h c => N.land (N.lxor h c * c_fnv_prime32) 4294967295) name c_fnv_offset32 in   (* uint32 *)
   (N.lxor h (N.shiftr h 16)) mod c_numHash.
 
 (* round(x, unit) on uint32 *)
@@ -58,16 +58,15 @@ Definition place32 (H limit nlen : N) : N * N :=
   let start := if start / RPAGE =? ((start + n) mod R32) / RPAGE then start else round32 limit RPAGE in
   (start, (start + n) mod R32).
 
-(* mappedFile.load32: None = the 4-byte read would leave the mapping *)
+(* mappedFile.load32 (after fix 219cb21: 0 unless all four bytes are inside
+   the mapping; None would be a read that leaves the mapping: no longer possible) *)
 Definition load32 (f : bfile) (o : N) : option N :=
-  if b_len f <=? o then Some 0
-  else if b_len f <? o + 4 then None
-  else Some (rd32 f o).
+  if b_len f <? o + 4 then Some 0 else Some (rd32 f o).
 
 (* mappedFile.entryAt *)
 Inductive eres := EOk (namelen next : N) | EBad | EFault.
 Definition entry_at (f : bfile) (H off : N) : eres :=
-  if (off <? H + c_hashOff) || (b_len f <? off + 16) then EBad
+  if (off <? H + c_hashOff) || negb (off mod 8 =? 0) || (b_len f <? off + 16) then EBad   (* alignment: fix a01a83c *)
   else match load32 f (off + 8) with
        | None => EFault
        | Some w =>
